@@ -75,6 +75,10 @@ class Deflate(object):
             )
         return wbits
 
+    # Input is given to zlib in pieces of this size, so that what is left
+    # over when a deflate stream ends inside a message stays small
+    _CHUNK_SIZE = 4096
+
     def decompress(self, frames):
         """Decompress payload, returned decompressed data."""
         chunks = [
@@ -82,34 +86,36 @@ class Deflate(object):
             for frame in frames
         ]
         chunks.append(b"\x00\x00\xff\xff")
+        size = 1 << self.decompress_wbits
+        window = self._window
         data = []
-        for chunk in chunks:
-            while chunk:
-                data.append(self._decompressobj.decompress(chunk))
-                chunk = self._decompressobj.unused_data
-                if chunk:
-                    # The deflate stream ended (the peer sent a block
-                    # with BFINAL set, see RFC 7692 7.2.3.4) and a
-                    # finished decompressor returns no further data. The
-                    # rest is a new stream, which may refer back to what
-                    # was decompressed so far.
-                    self.reset_decompressor(
-                        self._get_window(self._window, data)
-                    )
+        for _chunk in chunks:
+            for start in range(0, len(_chunk), self._CHUNK_SIZE):
+                chunk = _chunk[start:start + self._CHUNK_SIZE]
+                while chunk:
+                    output = self._decompressobj.decompress(chunk)
+                    if output:
+                        data.append(output)
+                        # The last bytes of output (the sliding window)
+                        window = (
+                            output[-size:]
+                            if len(output) >= size else
+                            (window + output)[-size:]
+                        )
+                    chunk = self._decompressobj.unused_data
+                    if chunk:
+                        # The deflate stream ended (the peer sent a block
+                        # with BFINAL set, see RFC 7692 7.2.3.4) and a
+                        # finished decompressor returns no further data.
+                        # The rest is a new stream, which may refer back
+                        # to what was decompressed so far.
+                        self.reset_decompressor(window)
         payload = b''.join(data)
         if self.reset_decompress:
             self.reset_decompressor()
         else:
-            self._window = self._get_window(self._window, [payload])
+            self._window = window
         return payload
-
-    def _get_window(self, window, data):
-        """Get the last bytes of output (the LZ77 sliding window)."""
-        size = 1 << self.decompress_wbits
-        data = b''.join(data)
-        if len(data) >= size:
-            return data[-size:]
-        return (window + data)[-size:]
 
     def compress(self, payload):
         """Compress payload, return compressed data."""
